@@ -10,7 +10,7 @@ theorem verdictOf_mkRule (mt : Str → Str → Bool) (g : PGraph Str) (s o n d e
       if (!(s || o || n)) || A.isEmpty || B.isEmpty then .err .improperlyConfigured
       else if (⟨s, o, n, e⟩ : Behavior).inconsistent then .err .ruleInconsistency
       else (matchRule mt g ⟨s, o, n, e⟩ d A B).cls := by
-  simp only [verdictOf, assertApplies, mkRule, anythingMisused, convertAliases, configMissing, RuleConfig.behavior,
+  simp only [verdictOf, assertApplies, mkRule, anythingMisused, droppedAbsent, List.any_nil, convertAliases, configMissing, RuleConfig.behavior,
     Bool.false_and, Bool.not_false, if_true, Bool.false_eq_true, if_false, Option.isNone_some, Bool.or_false]
   split
   · rfl
